@@ -43,15 +43,15 @@ EDITS = {
     r"        self\.flow_stack\.truncate\(mark\.fs_len\);\n", "",
     "a rejected source leaves its open control structures behind"),
  "rollback-keeps-input": (["C10"], "src/state.rs",
-    r"        self\.input\.truncate\(mark\.input_len\);\n        self\.nested\.truncate\(mark\.nested_len\);\n        self\.ctx = mark\.ctx;",
-    "        self.nested.truncate(mark.nested_len);\n        self.ctx = mark.ctx;",
+    r"    fn build_rollback\(&mut self, mark: BuildMark\) \{\n        self\.input\.truncate\(mark\.input_len\);\n",
+    "    fn build_rollback(&mut self, mark: BuildMark) {\n",
     "unread text of a rejected source stays on the input stack"),
  "seek-past-end": (["C06"], "src/bitstr_ext.rs",
     r"if s\.start\(\) <= pos && pos <= s\.end\(\) \{", "if s.start() <= pos {",
     "seek accepts a position past the end of the input"),
- "invert-ignores-start": (["C04"], "src/bitstr.rs",
-    r"let r = s\.bits_range\(\);\n        let data = s\.data_mut\(\);", "let r = 0..s.len();\n        let data = s.data_mut();",
-    "invert on a sub-range flips the bits at the start of the buffer instead"),
+ "invert-skips-last-bit": (["C04"], "src/bitstr.rs",
+    r"let r = s\.bits_range\(\);\n        let data = s\.data_mut\(\);", "let r = s.bits_range();\n        let r = r.start..r.end.saturating_sub(1).max(r.start);\n        let data = s.data_mut();",
+    "invert leaves the last bit of the value as it was"),
  "eq-fast-path-one-sided": (["C04"], "src/bitstr.rs",
     r"\} else if self\.is_u8_slice\(\) && other\.is_u8_slice\(\) \{\n            self\.slice\(\) == other\.slice\(\)",
     "} else if self.is_u8_slice() && other.is_u8_slice() {\n            self.slice().map(|s| &s[..s.len().min(1)]) == other.slice().map(|s| &s[..s.len().min(1)])",
